@@ -1,9 +1,10 @@
 #!/bin/bash
-# run every check of a tier on the current /repo tree, one after the other; summary on stdout
+# run every check (or the listed ones) of a tier on the current /repo tree, one after the other; summary on stdout
+# usage: ./runall.sh [quick|thorough] [C05 C06 ...]
 cd "$(dirname "$0")"
-TIER=${1:-quick}
-for i in $(seq -w 1 20); do
-  id=C$i
+TIER=${1:-quick}; shift
+IDS=${@:-$(for i in $(seq -w 1 20); do echo C$i; done)}
+for id in $IDS; do
   s=$(date +%s)
   ./check $id --tier $TIER > /tmp/verif_runall_$id.log 2>&1; rc=$?
   e=$(( $(date +%s) - s ))
